@@ -56,8 +56,8 @@ def classes():
 
 
 def state_text():
-    """the state a printer sees: _quoting and which scripted objects are in _seen (plus how many other ids)"""
-    import hy.core.hy_repr as hr
+    """the state a printer sees: _quoting and which scripted objects are in _seen"""
+    hr = sys.modules["hy.core.hy_repr"]
     ids = {id(n): i for i, n in enumerate(WORLD["nodes"])}
     member = "".join("1" if id(n) in hr._seen else "0" for n in WORLD["nodes"])
     return "<q%d s%s>" % (1 if hr._quoting else 0, member)
@@ -67,8 +67,12 @@ def resolve(ref):
     return WORLD["nodes"][ref[1]] if ref[0] == "node" else WORLD["values"][ref[1]]
 
 
+def hy_repr(x):
+    """hy.repr as defined by the current hy.core.hy_repr module object (hy.repr itself after a plain import)"""
+    return sys.modules["hy.core.hy_repr"].hy_repr(x)
+
+
 def run_script(node, script):
-    hy = hy_mod()
     out = []
     for a in script:
         if a[0] == "emit":
@@ -81,7 +85,7 @@ def run_script(node, script):
             marker = a[2]
             PENDING.append(marker)
             try:
-                out.append(hy.repr(resolve(a[1])))
+                out.append(hy_repr(resolve(a[1])))
             finally:
                 # the printer was not invoked (placeholder, or the target is not a scripted object): drop the script
                 if PENDING and PENDING[-1] is marker:
@@ -99,14 +103,16 @@ def printer(node):
     return run_script(node, script)
 
 
-def register():
-    if _registered[0]:
+def register(force=False):
+    if _registered[0] and not force:
         return
-    hy = hy_mod()
+    hy_mod()
+    import hy.core.hy_repr
+    reg = sys.modules["hy.core.hy_repr"].hy_repr_register
     Plain, Boxed, Model = classes()
-    hy.repr_register(Plain, printer)
-    hy.repr_register(Boxed, printer, placeholder="[boxed]")
-    hy.repr_register(Model, printer, placeholder="<model>")
+    reg(Plain, printer)
+    reg(Boxed, printer, placeholder="[boxed]")
+    reg(Model, printer, placeholder="<model>")
     _registered[0] = True
 
 
@@ -158,8 +164,8 @@ def build_world(h):
 
 def do_call(call):
     """one top-level call: ("ok", text) | ("raise", class name); then the state it leaves"""
-    hy = hy_mod()
-    import hy.core.hy_repr as hr
+    hy_mod()
+    hr = sys.modules["hy.core.hy_repr"]
     del PENDING[:]
     DEFAULTS.clear()
     DEFAULTS.update({int(k): v for k, v in call.get("defaults", {}).items()})
@@ -167,7 +173,7 @@ def do_call(call):
     if call["target"][0] == "node":
         PENDING.append(call["script"])
     try:
-        res = ["ok", hy.repr(target)]
+        res = ["ok", hy_repr(target)]
     except RecursionError:
         res = ["raise", "RecursionError"]
     except Exception as e:
@@ -177,7 +183,9 @@ def do_call(call):
 
 
 def reset_state():
-    import hy.core.hy_repr as hr
+    hy_mod()
+    import hy.core.hy_repr
+    hr = sys.modules["hy.core.hy_repr"]
     hr._seen.clear()
     hr._quoting = False
 
@@ -218,9 +226,47 @@ def fresh_history(h):
     return out
 
 
+SIMPLE = (set, dict, list, bool, int, float, str, type(None), tuple, frozenset)
+
+
+def snapshot_module_state():
+    """every module-level variable of hy.core.hy_repr that holds plain data (whatever its name), copied"""
+    import copy
+    hr = sys.modules["hy.core.hy_repr"]
+    return {k: copy.copy(v) for k, v in vars(hr).items() if not k.startswith("__") and type(v) in SIMPLE}
+
+
+def restore_module_state(snap):
+    hr = sys.modules["hy.core.hy_repr"]
+    for k, v in snap.items():
+        cur = getattr(hr, k, None)
+        if type(v) in (set, dict, list) and type(cur) is type(v):
+            cur.clear()
+            (cur.extend if type(v) is list else cur.update)(v)       # in place: the functions keep seeing the same object
+        else:
+            setattr(hr, k, v)
+    for k in [k for k, v in vars(hr).items() if not k.startswith("__") and type(v) in SIMPLE and k not in snap]:
+        delattr(hr, k)
+
+
+def restored_history(h, snap):
+    """every call of h with the module state of hy.core.hy_repr put back to what it was before any call"""
+    build_world(h)
+    out = []
+    for call in h["calls"]:
+        restore_module_state(snap)
+        out.append(do_call(call))
+    return out
+
+
 def main():
+    """stdin: {"fork": [history...], "reload": [history...]}; the process has made no hy.repr call before"""
     sys.setrecursionlimit(1000)
-    hs = json.load(sys.stdin)
+    req = json.load(sys.stdin)
     import hy.core.hy_repr as hr
     assert not hr._seen and not hr._quoting
-    json.dump([fresh_history(h) for h in hs], sys.stdout)
+    register()
+    snap = snapshot_module_state()
+    forked = [fresh_history(h) for h in req.get("fork", [])]
+    restored = [restored_history(h, snap) for h in req.get("reload", [])]
+    json.dump({"fork": forked, "reload": restored}, sys.stdout)
